@@ -232,7 +232,7 @@ EndBranch(S, p) ==
 
 \* ---------------------------------------------------------------------------------------------
 \* expansion and the scanners (mutually recursive, as in TeX)
-RECURSIVE GetX(_), ExpandOnce(_, _), ScanInt(_), ScanDigits(_, _, _), ScanSigns(_, _), InternalInt(_, _), TokVar(_, _)
+RECURSIVE GetX(_), GetXS(_), ExpandOnce(_, _), ScanInt(_), ScanDigits(_, _, _), ScanSigns(_, _), InternalInt(_, _), TokVar(_, _)
 
 Digits(n) == LET RECURSIVE D(_) D(k) == IF k < 10 THEN << Tok("ch", 48 + k) >> ELSE D(k \div 10) \o << Tok("ch", 48 + (k % 10)) >>
              IN IF n < 0 THEN << Tok("ch", 45) >> \o D(-n) ELSE D(n)
@@ -275,7 +275,7 @@ ExpandOnce(S0, t) ==
                  ELSE IF Expandable(b.s, b.t) THEN Back(ExpandOnce(b.s, b.t), a.t)
                  ELSE Back(Back(b.s, b.t), a.t)
   ELSE IF mn.a = P_the
-  THEN LET x == GetX(S) IN
+  THEN LET x == GetXS(S) IN
        IF x.none THEN Fail(x.s, "eof after the")
        ELSE IF ~Stopped(x.s) /\ (MeanOf(x.s, x.t) = Prim(P_toks) \/ MeanOf(x.s, x.t).m = "tdef")
        THEN \* TeX 465: the tokens of the list itself (they are read again, and expanded, afterwards)
@@ -291,7 +291,7 @@ ExpandOnce(S0, t) ==
   ELSE IF mn.a = P_ifnum
   THEN LET l == ScanInt(S) IN
        IF Stopped(l.s) THEN l.s
-       ELSE LET RECURSIVE Rel(_) Rel(Q) == LET x == GetX(Q) IN IF ~x.none /\ x.t.k = "sp" /\ ~Stopped(x.s) THEN Rel(x.s) ELSE x
+       ELSE LET RECURSIVE Rel(_) Rel(Q) == LET x == GetXS(Q) IN IF ~x.none /\ x.t.k = "sp" /\ ~Stopped(x.s) THEN Rel(x.s) ELSE x
                 o == Rel(l.s) IN
             IF o.none \/ Stopped(o.s) THEN Fail(o.s, "ifnum: eof")
             ELSE IF ~(o.t.k = "ch" /\ o.t.v \in {60, 61, 62}) THEN Fail(o.s, "ifnum: no relation")
@@ -326,9 +326,17 @@ GetX(S) ==
        THEN LET e == ExpandOnce(g.s, g.t) IN IF Stopped(e) THEN NoTok(e) ELSE GetX(e)
   ELSE g
 
+\* What a scanner (number, keyword, =, relation, prefix, \the, token list brace) sees.  A token that
+\* \noexpand protects keeps its protection in TeX only for the one look get_x_token takes; texlang has
+\* no such mark (finding C07/noexpand-lost-under-expandafter: "pushed back plain and expanded when read
+\* again"), and its scanners peek and then read.  That finding is decided by C07; here the run is counted.
+GetXS(S) ==
+  LET x == GetX(S) IN
+  IF ~x.none /\ x.nx /\ Expandable(x.s, x.t) THEN NoTok(Skip(x.s, "skip-noexpand-seen-by-scanner")) ELSE x
+
 \* TeX 440: optional spaces and signs, then an internal integer or decimal digits and one optional space
 ScanSigns(S, neg) ==
-  LET x == GetX(S) IN
+  LET x == GetXS(S) IN
   IF x.none THEN [x EXCEPT !.nx = neg]
   ELSE IF x.t.k = "sp" THEN ScanSigns(x.s, neg)
   ELSE IF x.t.k = "ch" /\ x.t.v = 45 THEN ScanSigns(x.s, ~neg)
@@ -336,7 +344,7 @@ ScanSigns(S, neg) ==
   ELSE [s |-> x.s, t |-> x.t, nx |-> neg, none |-> FALSE]       \* nx reused: the sign
 
 ScanDigits(S, acc, any) ==
-  LET x == GetX(S) IN
+  LET x == GetXS(S) IN
   IF x.none THEN [s |-> x.s, v |-> acc, any |-> any]
   ELSE IF IsDigit(x.t)
        THEN LET a == acc * 10 + (x.t.v - 48) IN
@@ -358,7 +366,7 @@ ScanInt(S) ==
 \* TeX 405: optional spaces then an optional = (expanding)
 RECURSIVE OptEquals(_)
 OptEquals(S) ==
-  LET x == GetX(S) IN
+  LET x == GetXS(S) IN
   IF x.none THEN x.s
   ELSE IF x.t.k = "sp" THEN OptEquals(x.s)
   ELSE IF x.t.k = "ch" /\ x.t.v = 61 THEN x.s
@@ -366,11 +374,11 @@ OptEquals(S) ==
 
 \* TeX 407 for the keyword "by": spaces may precede it; a partial match is put back
 OptBy(S) ==
-  LET RECURSIVE Lead(_) Lead(Q) == LET x == GetX(Q) IN IF ~x.none /\ x.t.k = "sp" THEN Lead(x.s) ELSE x
+  LET RECURSIVE Lead(_) Lead(Q) == LET x == GetXS(Q) IN IF ~x.none /\ x.t.k = "sp" THEN Lead(x.s) ELSE x
       a == Lead(S) IN
   IF a.none THEN a.s
   ELSE IF a.t.k = "ch" /\ a.t.v \in {98, 66}
-       THEN LET b == GetX(a.s) IN
+       THEN LET b == GetXS(a.s) IN
             IF b.none THEN Back(b.s, a.t)
             ELSE IF b.t.k = "ch" /\ b.t.v \in {121, 89} THEN b.s
             ELSE Back(Back(b.s, b.t), a.t)
@@ -404,7 +412,7 @@ AssignToks(S, t, glob) ==
   IF Stopped(tv.s) THEN tv.s
   ELSE LET e == OptEquals(tv.s) IN
        IF Stopped(e) THEN e
-       ELSE LET x == GetX(e) IN
+       ELSE LET x == GetXS(e) IN
             IF x.none THEN (IF Stopped(x.s) THEN x.s ELSE Fail(x.s, "toks: eof"))
             ELSE IF x.t.k = "sp" \/ MeanOf(x.s, x.t) = Prim(P_relax) THEN Skip(x.s, "skip-blank-before-toks-brace")
             ELSE IF x.t.k = "lb"
@@ -441,7 +449,7 @@ AssignVar(S, t, glob) ==
 
 \* \advance / \multiply / \divide <variable> [by] <int>
 Arith(S, p, glob) ==
-  LET x == GetX(S) IN
+  LET x == GetXS(S) IN
   IF x.none THEN Fail(x.s, "arith: eof")
   ELSE LET iv == IntVar(x.s, x.t) IN
        IF ~iv.ok THEN Fail(iv.s, "arith: not a variable")
@@ -552,7 +560,7 @@ Exec(S, x, pfx) ==
   ELSE IF mn.m = "prim" /\ mn.a \in {P_global, P_long, P_outer}
   THEN \* TeX 1211: the next non-blank, non-relax expanded token is what the prefix applies to
        IF mn.a # P_global THEN Skip(S, "skip-long-outer")
-       ELSE LET y == GetX(S) IN
+       ELSE LET y == GetXS(S) IN
             IF y.none THEN (IF Stopped(y.s) THEN y.s ELSE Fail(y.s, "prefix: eof"))
             ELSE IF y.t.k = "sp" \/ MeanOf(y.s, y.t) = Prim(P_relax) THEN Skip(y.s, "skip-blank-after-prefix")
             ELSE Exec(y.s, y, TRUE)
